@@ -8,6 +8,7 @@ import Mathlib.Tactic.Ring
 import Mathlib.Tactic.FieldSimp
 import Mathlib.Tactic.Positivity
 import Mathlib.Algebra.Order.Field.Rat
+import Mathlib.Data.Rat.Floor
 
 namespace Panqec.Cli
 
@@ -113,6 +114,29 @@ theorem grid_tolerance {u : Rat} (hu : 0 < u) (a b : Int) (s : Nat) (hs : 0 < s)
     rw [hk] at this
     have := eps_pos
     linarith
+
+/-- on a grid `(max-min)/step` rounds down to the integer quotient of the unit counts -/
+theorem grid_floor {u : Rat} (hu : 0 < u) (a b : Int) (s : Nat) (hs : 0 < s) :
+    (((b : Rat) * u - (a : Rat) * u) / ((s : Rat) * u)).floor = (b - a) / (s : Int) := by
+  have hsQ : (0 : Rat) < (s : Rat) := by exact_mod_cast hs
+  have hx : ((b : Rat) * u - (a : Rat) * u) / ((s : Rat) * u) = ((b - a : Int) : Rat) / (s : Rat) := by
+    push_cast
+    field_simp
+  rw [hx]
+  exact Rat.floor_intCast_div_natCast (b - a) s
+
+/-- the range of a grid specification, without any side condition on the tolerance -/
+theorem rangeValues_on_grid {u : Rat} (hu : 0 < u) (a b : Int) (hab : a ≤ b) (s : Nat)
+    (hs : 0 < s) (hs9 : s < 1000000000) :
+    rangeValues ((a : Rat) * u) ((b : Rat) * u) ((s : Rat) * u) =
+      (List.range (((b - a) / (s : Int)).toNat + 1)).map
+        fun (i : Nat) => (a : Rat) * u + (i : Rat) * ((s : Rat) * u) := by
+  have hsQ : (0 : Rat) < (s : Rat) := by exact_mod_cast hs
+  have hst : 0 < (s : Rat) * u := mul_pos hsQ hu
+  have hle : (a : Rat) * u ≤ (b : Rat) * u := by
+    have : (a : Rat) ≤ (b : Rat) := by exact_mod_cast hab
+    exact mul_le_mul_of_nonneg_right this (le_of_lt hu)
+  rw [rangeValues_eq hst hle (grid_tolerance hu a b s hs hs9), grid_floor hu a b s hs]
 
 /-! ### direction of a bias ratio -/
 
